@@ -6,7 +6,7 @@ Line protocol of the C15 driver.
 `c15 run <profile> <nregions> (<base> <hex>)* <op>*`
   one request = one lifetime of a freshly opened handle over a device whose memory map consists
   of the given regions.  ops (executed in order, the handle caches persist between them):
-    `e` enable_streaming, `d` disable_streaming, `s` ControlHandle::sbrm, `p` StreamParams::from_control (+ maximum_payload_size)
+    `e` enable_streaming, `d` disable_streaming, `s` ControlHandle::sbrm, `p` StreamParams::from_control (+ maximum_payload_size), `l` start of the receive loop (parameters = from_control now; + transfers of one frame), `M:<addr>:<hex>` device-side register change
   each optionally followed by `@<k>:<kind>:<applied>`: the k-th device access (0-based, counted
   within the op) is faulted; kind = `status` (GenCP error status) or a libusb error name.
   answer: `<op>=<result>[<access log>] ... img=<hex>|<hex>..` (final content of every region).
@@ -56,17 +56,27 @@ def showR {α} (f : α → String) : R α → String
 structure Op where
   kind : Char
   fault : Option (Nat × Fault)
+  /-- `M:<addr>:<hex>`: the device changes registers on its own -/
+  poke : Option (Nat × Bytes) := none
 
 def parseOp (s : String) : Option Op :=
+  if s.startsWith "M:" then
+    match s.splitOn ":" with
+    | [_, a, h] =>
+      match a.toNat?, hexToBytes h with
+      | some a, some d => some ⟨'M', none, some (a, d)⟩
+      | _, _ => none
+    | _ => none
+  else
   match s.splitOn "@" with
   | [k] => match k.toList with
-    | [c] => some ⟨c, none⟩
+    | [c] => some ⟨c, none, none⟩
     | _ => none
   | [k, f] =>
     match k.toList, f.splitOn ":" with
     | [c], [idx, kind, ap] =>
       match idx.toNat?, faultErr kind with
-      | some i, some e => some ⟨c, some (i, ⟨e, ap == "1"⟩)⟩
+      | some i, some e => some ⟨c, some (i, ⟨e, ap == "1"⟩), none⟩
       | _, _ => none
     | _, _ => none
   | _ => none
@@ -74,6 +84,15 @@ def parseOp (s : String) : Option Op :=
 def schedule : Option (Nat × Fault) → List (Option Fault)
   | none => []
   | some (k, f) => List.replicate k none ++ [some f]
+
+/-- transfers of one frame as the receive loop submits them: leader, `count` payload transfers,
+final1 / final2 when non-zero, trailer (digest as in the harness) -/
+def frameDigest (sp : StreamParams) : String :=
+  let fr := [sp.leaderSize] ++ List.replicate sp.payloadCount sp.payloadSize ++
+    (if sp.payloadFinal1Size != 0 then [sp.payloadFinal1Size] else []) ++
+    (if sp.payloadFinal2Size != 0 then [sp.payloadFinal2Size] else []) ++ [sp.trailerSize]
+  let h := fr.foldl fnvNat fnvInit
+  s!"{fr.length}:{natToHex 16 h.toNat}"
 
 def showParams (p : Profile) (sp : StreamParams) : String :=
   let mx := showR (fun n => s!"{n}") (sp.maximumPayloadSize p)
@@ -83,6 +102,13 @@ def showParams (p : Profile) (sp : StreamParams) : String :=
 def runOps (p : Profile) : List Op → St → List String → List String × St
   | [], st, acc => (acc, st)
   | op :: ops, st, acc =>
+    match op.poke with
+    | some (a, d) =>
+      -- device-side change: no host access, no log entry
+      if st.dev.mem.rangeMapped a d.length then
+        runOps p ops { st with dev := { st.dev with mem := st.dev.mem.write a d } } ("M=ok" :: acc)
+      else runOps p ops st ("M=unmapped" :: acc)
+    | none =>
     let st := { st with dev := { st.dev with log := [], faults := schedule op.fault } }
     let (res, st', isPanic) : String × St × Bool :=
       if op.kind == 'e' then
@@ -95,6 +121,14 @@ def runOps (p : Profile) : List Op → St → List String → List String × St
         -- the public `ControlHandle::sbrm()` (fills the SBRM cache only)
         let (r, st') := getSbrm st
         (showR (fun _ => "ok") r, st', r.isPanic)
+      else if op.kind == 'l' then
+        -- `StreamHandle::start_streaming_loop`: the parameters of the receive loop are
+        -- `StreamParams::from_control` of the device as it is now, on every start
+        let (r, st') := fromControl st
+        (match r with
+          | .ok sp => showParams p sp ++ ",frame=" ++ frameDigest sp
+          | .err _ => "err:Stream"
+          | .panic => "panic", st', r.isPanic)
       else
         let (r, st') := fromControl st
         (showR (showParams p) r, st', r.isPanic)
